@@ -132,6 +132,7 @@ type Sim struct {
 
 	hbSeq uint32
 	armed []KRepItem
+	armedAns *Action
 	tearing bool
 	c11carriers map[string]bool
 	statesSeen map[string]bool
@@ -278,6 +279,16 @@ func (s *Sim) perm(site int, n int) []int {
 	return p
 }
 
+// choose: which of several READY cases of a receive-only select runs (rule R7).
+func (s *Sim) choose(site int, ready []int) int {
+	s.emu.Lock()
+	c := s.permCnt[-site]
+	s.permCnt[-site] = c + 1
+	s.probeM["select.both-ready"]++
+	s.emu.Unlock()
+	return ready[int(s.hash("select", uint64(site), c)%uint64(len(ready)))]
+}
+
 // ---- report interposer -------------------------------------------------------------
 
 type simHandler struct{ s *Sim }
@@ -342,6 +353,14 @@ func (s *Sim) settle() {
 		if r != nil {
 			if err := s.kern.decode(r); err != nil {
 				s.harnessFail("simkernel cannot decode a request from go-upf: %v (% x)", err, r.Raw)
+			}
+			if s.armedAns != nil && r.Conn == "main" {
+				s.armedAns.N--
+				if s.armedAns.N <= 0 {
+					a := s.armedAns
+					s.armedAns = nil
+					s.injectAnswerMidTurn(a)
+				}
 			}
 			if s.armed != nil && r.Conn == "main" && (r.Op == "del" || r.Op == "add-create" || r.Op == "add-update") {
 				// a burst of kernel notifications lands while the event loop waits for
@@ -442,6 +461,7 @@ func (s *Sim) boot() {
 	nl.SetSimKernel(s.kern)
 	simhook.SetPerm(s.perm)
 	simhook.SetKnobs(s.cfg.Knobs)
+	simhook.SetChoose(s.choose)
 	simhook.SetListen(func(network string, laddr *net.UDPAddr) (simhook.PacketBackend, error) {
 		switch laddr.Port {
 		case factory.UpfPfcpDefaultPort:
@@ -725,6 +745,7 @@ func (s *Sim) teardown() {
 	}
 	s.tearing = true
 	s.armed = nil
+	s.armedAns = nil
 	// drop what the simulator still holds so that nothing is delivered during shutdown
 	s.rmu.Lock()
 	s.pendRep = nil
